@@ -100,10 +100,8 @@ Definition s_wf_country (cc : text) : bool :=
 
 Definition x_random_bban (R : banks) :=
   random_bban the_env (ic_components the_iban_cfg) the_table x_find_algo R.
-Definition x_random_iban (R : banks) (cc0 : text) (use_registry : bool) (pins : list (text * text))
-                         (ci bi : nat) (draws : list text) : outcome text :=
-  do cb <- x_random_bban R cc0 use_registry pins ci bi draws;
-  x_iban_from_bban R (fst cb) (snd cb) false false.
+Definition x_random_iban (R : banks) :=
+  iban_random the_env the_iban_cfg the_table (x_national R) (ic_components the_iban_cfg) x_find_algo R.
 
 Fixpoint t2s (t : text) : string :=
   match t with [] => EmptyString | c :: r => String (ascii_of_N c) (t2s r) end.
